@@ -164,7 +164,7 @@ template <class T> static void rotations (int k)
             if (k % 3 == 0) e = (e < 0 ? -1 : 1) * (std::is_same<T, float>::value ? U (20, 30) : U (155, 200));
             ax = Vec3<T> ((T) U (-1, 1), (T) U (-1, 1), (T) U (-1, 1)) * (T) std::pow (10.0, e);
             T l2 = ax.length2 ();
-            ++hits[std::string ("axis-magnitude:") + Nm<T>::n + (std::isinf ((double) l2) ? ":huge(|axis|^2 overflows)" : l2 < 2 * std::numeric_limits<T>::min () ? ":tiny(|axis|^2 underflows)" : ":moderate")];
+            ++hits[std::string ("axis-magnitude:") + Nm<T>::n + (std::isinf ((double) l2) ? ":huge:length2-overflows" : l2 < 2 * std::numeric_limits<T>::min () ? ":tiny:length2-underflows" : ":moderate")];
         }
         if (ax.x == 0 && ax.y == 0 && ax.z == 0) ax.x = 1;
         T a = angle<T> (cls);
